@@ -45,6 +45,15 @@ func (t *Tools) RunCLI(dir string, args ...string) Result {
 	return runProc(dir, Horizon, t.Gocc, args...)
 }
 
+// RunCLIEnv is RunCLI with extra environment variables.
+func (t *Tools) RunCLIEnv(dir string, env map[string]string, args ...string) Result {
+	for k, v := range env {
+		os.Setenv(k, v)
+		defer os.Unsetenv(k)
+	}
+	return runProc(dir, Horizon, t.Gocc, args...)
+}
+
 func runProc(dir string, horizon time.Duration, bin string, args ...string) Result {
 	sh := fmt.Sprintf("ulimit -v %d; exec \"$0\" \"$@\"", MemLimitKB)
 	cmd := exec.Command("/bin/sh", append([]string{"-c", sh, bin}, args...)...)
@@ -167,6 +176,20 @@ func (p *Pool) Close() {
 
 // Run executes one job. Safe for concurrent use (blocks while all workers are busy).
 func (p *Pool) Run(j Job) Result {
+	if os.Getenv("VERIF_CLI_ONLY") != "" && p.batch == "" {
+		// fall-back mode: one real CLI process per run (the in-process server was found to disagree with the CLI,
+		// i.e. the generator keeps state between runs inside one process)
+		p.Jobs.Add(1)
+		env := os.Environ()
+		_ = env
+		start := time.Now()
+		res := p.t.RunCLIEnv(j.Dir, j.Env, j.Args...)
+		if res.Hang {
+			p.Hangs.Add(1)
+		}
+		res.Elapsed = time.Since(start)
+		return res
+	}
 	w := <-p.workers
 	if w == nil {
 		w = p.start()
